@@ -151,16 +151,16 @@ def _resolve_concat(conc: Concat) -> Concat:
     if isinstance(conc.parts[0], Concat):
         # Recursively cover the first element, and all others
         first = _resolve_concat(conc.parts[0])
-        rest = _resolve_concat(Concat(*conc.parts[1:]))
-        return Concat(*(first.parts + rest.parts))
+        rest = _resolve_rest(conc.parts[1:])
+        return Concat(*(first.parts + rest))
 
     if isinstance(conc.parts[0], Slice):
         # Resolve everything within the Slice to a list of concrete-Signal slices
-        first = _resolve_slice(conc.parts[0])
+        first = _list_slice(conc.parts[0])
         # Pass everything else recursively back to this method
-        rest = _resolve_concat(Concat(*conc.parts[1:]))
+        rest = _resolve_rest(conc.parts[1:])
         # And concatenate the two
-        return Concat(*(first + rest.parts))
+        return Concat(*(tuple(first) + rest))
 
     # Otherwise peel off as many Signals and concrete-Signal Slices as we can
     for idx in range(len(conc.parts)):
@@ -172,6 +172,13 @@ def _resolve_concat(conc: Concat) -> Concat:
         return Concat(*(first + rest.parts))
 
     raise RuntimeError("Unable to resolve concatenation")
+
+
+def _resolve_rest(parts: tuple) -> tuple:
+    """Resolve the remaining `parts` of a Concatenation, of which there may be none (when its last part was compound)."""
+    if not parts:
+        return ()
+    return _resolve_concat(Concat(*parts)).parts
 
 
 def _resolve_ref(ref: Union[PortRef, BundleRef]) -> Sliceable:
